@@ -200,6 +200,10 @@ def gen_acts(rng):
             continue
         r = rng.random()
         fwd = rng.random() < 0.55
+        if rng.random() < 0.12:
+            ak, av = rng.choice([("ll", "ls -l"), ("e", "echo hi"), ("gg", "git grep \"$@\""), ("KEEP", "true")])
+            acts.append({"op": "alias", "fwd": fwd, "k": ak, "v": av})
+            continue
         if r < 0.5:
             v = gen_value(rng) if rng.random() < 0.85 else ""
             if "-f" == v or v.startswith("-f"):
@@ -319,7 +323,7 @@ def gen_shell(rng):
             cmds.append("")
         else:
             cmds.append(rng.choice(["export 1x=3", "unset 1x", "export", "unset", "echo hi", ";", "export A=1;;", "A=1",
-                                    "export A=$B", "export A=a#b", "#c", "export A=~", "unset -f A", "export A=\"b\"",
+                                    "export A=$B", "export A=a#b", "#c", "export A=~", "unset -f A", "unset -f", "unset -f A N1", "unset -f 1x", "unset -v A", "export A=\"b\"",
                                     "export A=a\\ b", "export A=*", "(export A=1)", "export A=1 &", "export A=1 | true"]))
     sep = rng.choice([";\n", ";\n", "\n", ";", " ; ", "\n\n"])
     text = sep.join(cmds) + rng.choice(["", "\n", ";", ";\n"])
@@ -454,6 +458,8 @@ def impl_acts(case):
         for a in case["acts"]:
             if a["op"] == "envSet":
                 act = Action("t.table", "envSet", [a["k"], a["text"]], {})
+            elif a["op"] == "alias":
+                act = Action("t.table", "addAlias", [a["k"], a["v"]], {})
             elif a["op"] == "path":
                 act = Action("t.table", "envPrepend", [a["k"], a["text"]], dict(append=a["append"]))
             else:
@@ -466,7 +472,8 @@ def impl_acts(case):
             cmds = app.setup("prod", eupsenv=E, fwd=o["fwd"])
     except Exception as ex:  # noqa
         return {"exc": type(ex).__name__}
-    return {"cmds": cmds, "old": [list(x) for x in E.oldEnviron.items()], "cur": [list(x) for x in os.environ.items()]}
+    return {"cmds": cmds, "old": [list(x) for x in E.oldEnviron.items()], "cur": [list(x) for x in os.environ.items()],
+            "aliases": [list(x) for x in E.aliases.items()], "oldAliases": [list(x) for x in E.oldAliases.items()]}
 
 
 def _stack_request(env_before, req):
@@ -605,7 +612,9 @@ def model_request(case):
     if k == "acts":
         acts = []
         for a in case["acts"]:
-            if a["op"] == "unset":
+            if a["op"] == "alias":
+                acts.append({"op": "alias", "force": case["force"], "fwd": a["fwd"], "k": a["k"], "v": a["v"]})
+            elif a["op"] == "unset":
                 if a["fwd"]:
                     acts.append({"op": "unset", "k": a["k"]})
             else:
@@ -658,7 +667,6 @@ def check_delta(ctx, case, inp, base, old_after, computed, shells, is_eups, mode
         return
     if any(k in dict(computed) or k in dict(base) for k in alias_names):
         ctx.hist("delta:alias-named-like-variable")
-        return
     ctx.hist("delta:in-claim")
     exp = expected_after_sourcing(base, computed, is_eups)
     for sh, got in shells.items():
@@ -790,8 +798,9 @@ def evaluate(ctx, cases):
             mo = {"cmds": m["cmds"], "cur": m["final"]}
             io_cmp = {"cmds": io_["cmds"], "cur": io_["cur"]}
         else:
-            mo = {"cmds": m["cmds"], "old": m["old"], "cur": m["cur"]}
-            io_cmp = {"cmds": io_["cmds"], "old": io_["old"], "cur": io_["cur"]}
+            mo = {"cmds": m["cmds"], "old": m["old"], "cur": m["cur"], "aliases": m["aliases"], "oldAliases": m["oldAliases"]}
+            io_cmp = {"cmds": io_["cmds"], "old": io_["old"], "cur": io_["cur"], "aliases": io_["aliases"],
+                      "oldAliases": io_["oldAliases"]}
         if mo != io_cmp:
             ctx.disagree("emitted_commands" if mo["cmds"] != io_cmp["cmds"] else "environment_bookkeeping", inp, io_cmp, mo)
         if io_.get("shells") is not None:
@@ -799,7 +808,8 @@ def evaluate(ctx, cases):
             compare_shell_model(ctx, inp, io_["shells"], sheval[(i, None)], "emitted")
             if not o["noaction"]:
                 check_delta(ctx, c, inp, base, io_["old"], io_["cur"], io_["shells"], o["isEups"], mo, io_cmp,
-                            alias_names=[k for k, _ in c.get("aliases", [])] + [k for k, _ in c.get("oldAliases", [])])
+                            alias_names=[k for k, _ in io_.get("aliases", c.get("aliases", []))] +
+                            [k for k, _ in io_.get("oldAliases", c.get("oldAliases", []))])
         ctx.case(key=c, nontrivial=bool(io_["cmds"]), sample={"input": c, "impl": io_} if ctx.evaluations % 499 == 0 else None)
 
 
@@ -823,8 +833,8 @@ def run(ctx):
     cases = corpus_cases()
     ctx.hist("corpus", len(cases))
     evaluate(ctx, cases)
-    budget = [("emit", ctx.n(1200, 40000)), ("acts", ctx.n(600, 20000)), ("shell", ctx.n(1500, 60000)),
-              ("stack", ctx.n(80, 2500))]
+    budget = [("emit", ctx.n(2400, 60000)), ("acts", ctx.n(1200, 30000)), ("shell", ctx.n(3000, 100000)),
+              ("stack", ctx.n(200, 4000))]
     for kind, n in budget:
         done = 0
         batch = 600 if kind != "stack" else 48
